@@ -589,6 +589,7 @@ class _CUR(GreedySelector):
                 self._orthogonalize(last_selected=c)
 
         self.pi_ = self._compute_pi(self.X_current_)
+        self.pi_[self.selected_idx_[: self.n_selected_]] = 0.0
 
         super()._continue_greedy_search(X, y, n_to_select)
 
@@ -769,6 +770,7 @@ class _PCovCUR(GreedySelector):
                 self._orthogonalize(last_selected=c)
 
         self.pi_ = self._compute_pi(self.X_current_, self.y_current_)
+        self.pi_[self.selected_idx_[: self.n_selected_]] = 0.0
 
         super()._continue_greedy_search(X, y, n_to_select)
 
